@@ -397,8 +397,11 @@ var Globals func() map[string]interface{}
 func ResetRun() {
 	FSLog = nil
 	Uncontrolled = 0
-	resetSync()
 }
+
+// ResetProcessState forgets what simulated sync primitives hold (pool contents, Once
+// states): together with the restored package variables this is the state of a fresh process.
+func ResetProcessState() { resetSync() }
 
 // ---- synchronisation primitives (seam S6) -------------------------------------
 // A task parked on a real lock could never be released by a cooperative scheduler,
